@@ -57,6 +57,9 @@ def generate(tape, tier="quick"):
                 "mask": gen_mask(tape, shape, mk) if mk in ("partial", "empty", "full") else None,
                 "quantified": tape.chance(1, 2), "masked_input": tape.chance(1, 2)}
     a = gen_structured(tape, max_dim=2, max_len=4, kinds=("uniform", "rectilinear", "esri"))
+    if tape.chance(1, 100):
+        # large grids now and then (masks of more than a thousand cells that differ in one cell somewhere)
+        a = gen_structured(tape, dim=2, min_len=34, max_len=60, kinds=("uniform",))
     cg = tape.weighted([("same", 3), ("relayout", 4), ("unset", 3)])
     b = dict(a) if cg == "same" else (relayout(tape, a) if cg == "relayout" else None)
     ma = MGrid(a)
